@@ -280,10 +280,10 @@ var overlap2Ops = map[string]func(fail bool) ro.Observable[int]{
 		return ro.Concat(ro.Just(1), ro.Merge(pumpSource(60, 0), pumpSourceEnd(60, 1000, f)))
 	},
 	"StartWith": func(f bool) ro.Observable[int] {
-		return ro.StartWith(7)(ro.Merge(pumpSource(60, 0), pumpSourceEnd(60, 1000, f)))
+		return ro.StartWith(7)(ro.Merge(pumpSource(300, 0), pumpSourceEnd(40, 1000, f))) // the second input ends while the first still emits
 	},
 	"Defer": func(f bool) ro.Observable[int] {
-		return ro.Defer(func() ro.Observable[int] { return ro.Merge(pumpSource(60, 0), pumpSourceEnd(60, 1000, f)) })
+		return ro.Defer(func() ro.Observable[int] { return ro.Merge(pumpSource(300, 0), pumpSourceEnd(40, 1000, f)) })
 	},
 	"Timeout": func(f bool) ro.Observable[int] { return ro.Timeout[int](50 * time.Microsecond)(pumpSourceEnd(400, 0, f)) },
 	"BufferWithTimeOrCount": func(f bool) ro.Observable[int] {
@@ -305,7 +305,8 @@ func runOverlap2Case(c *Case) string {
 	setRecorder(nil)
 	worst := int32(0)
 	hung := 0
-	for r := 0; r < rounds && worst <= 1; r++ {
+	after := int32(0) // deliveries that began after a terminal callback had begun (C01), over all rounds
+	for r := 0; r < rounds && (worst <= 1 || after == 0); r++ {
 		o := &overlapObserver{}
 		obs := mk(fail)
 		done := make(chan ro.Subscription, 1)
@@ -326,12 +327,13 @@ func runOverlap2Case(c *Case) string {
 		if m := atomic.LoadInt32(&o.maxInside); m > worst {
 			worst = m
 		}
+		after += atomic.LoadInt32(&o.after)
 	}
 	verdict := "serialized"
 	if worst > 1 {
 		verdict = "overlap"
 	}
-	return fmt.Sprintf("res %s observed=%s maxinside=%d hung=%d", c.id, verdict, worst, hung)
+	return fmt.Sprintf("res %s observed=%s maxinside=%d hung=%d after=%d", c.id, verdict, worst, hung, after)
 }
 
 func genOverlap2(tier string, seed int64, only string) []*Case {
